@@ -1,6 +1,6 @@
 /* Native replay for init_cache_rekeys_unless_same_key (no verifier inputs: the counterexample is a pair of abstract key
    identities): re-key one cache object through a fixed family of (old key, new key) pairs - equal keys, different keys of
-   equal length, new key a proper prefix of the old one, empty new key, new key longer than the old one - and compare the hash
+   equal length, new key a proper prefix of the old one, empty new key, new key longer than the old one, binary keys of equal length that differ only behind an embedded zero byte - and compare the hash
    with the one from a freshly allocated cache initialised with the new key.  exit 1 on any mismatch. */
 #include <cstdio>
 #include <cstring>
@@ -21,6 +21,14 @@ int main() {
 		randomx_cache* f = randomx_alloc_cache(RANDOMX_FLAG_DEFAULT); randomx_init_cache(f, p[1], strlen(p[1]));
 		++cases;
 		if (hash_with(c, "replay input") != hash_with(f, "replay input")) { printf("FAIL re-keying \"%s\" -> \"%s\": hash differs from a fresh cache initialised with the new key\n", p[0], p[1]); ++fails; }
+		randomx_release_cache(f);
+	}
+	{	/* binary keys (keys are block hashes in practice): equal up to and including a zero byte, different behind it */
+		char a[32], b[32]; for (int i = 0; i < 32; ++i) a[i] = b[i] = (char)(i + 1); a[5] = b[5] = 0; b[20] ^= 0x55;
+		randomx_init_cache(c, a, 32); randomx_init_cache(c, b, 32);
+		randomx_cache* f = randomx_alloc_cache(RANDOMX_FLAG_DEFAULT); randomx_init_cache(f, b, 32);
+		++cases;
+		if (hash_with(c, "replay input") != hash_with(f, "replay input")) { printf("FAIL re-keying with a 32-byte binary key that differs only behind an embedded zero byte: hash differs from a fresh cache\n"); ++fails; }
 		randomx_release_cache(f);
 	}
 	randomx_release_cache(c);
